@@ -28,7 +28,7 @@ ORDER_CHECK = {"pwc", "pwc_knn", "sk_nb", "sk_tree", "sk_knn", "sk_lr"}
 
 
 def gen_cases(tier, seed):
-    reps = {"quick": 14, "thorough": 150}[tier]
+    reps = {"quick": 14, "thorough": 800}[tier]
     cases = []
     for name in models.CLASSIFIERS:
         for i in range(reps):
